@@ -24,8 +24,9 @@
                     dbus_pending_call_block (call i) while a helper thread writes the batches (separated by '/') to the
                     peer's socket, one every 15 ms, as raw pre-marshalled bytes (the helper makes no libdbus call)
      BT,<i>,<arg>,<s.us>/<s.us>/...,<batch>/<batch>/... ('-' = nothing arrives, poll times out; 'x' = no batches)
-                    dbus_pending_call_block (call i) under a scripted clock: while it runs, gettimeofday() (which is what
-                    _dbus_get_monotonic_time uses in this build) returns the listed readings one after the other, and poll()
+                    dbus_pending_call_block (call i) under a scripted clock: while it runs, clock_gettime (CLOCK_MONOTONIC)
+                    (what _dbus_get_monotonic_time uses) returns the listed readings one after the other (a call of
+                    gettimeofday during the wait is flagged "!walltime"), and poll()
                     on the client's socket never sleeps: if nothing is readable the next batch is written to the peer's
                     socket (or, for '-', poll returns 0 at once).  Every timeout handed to poll() is printed (q<ms>).
      X              peer closes its end (after draining what the client sent)
@@ -39,6 +40,7 @@
 #include <pthread.h>
 #include <poll.h>
 #include <sys/time.h>
+#include <time.h>
 #include <sys/syscall.h>
 #include <dbus/dbus-connection-internal.h>
 
@@ -357,12 +359,29 @@ static int bt_active, bt_cfd = -1, bt_pfd = -1;
 static struct timeval bt_clk[MAXCLK]; static int bt_nclk, bt_ci;
 static struct batch bt_arr[MAXBATCH]; static int bt_narr, bt_ai;
 
+/* _dbus_get_monotonic_time must use CLOCK_MONOTONIC (repo commit 09f2f87): the script is served through clock_gettime */
+int clock_gettime (clockid_t id, struct timespec *ts)
+{
+  if (bt_active && id == CLOCK_MONOTONIC && ts)
+    {
+      struct timeval tv;
+      if (bt_ci < bt_nclk) tv = bt_clk[bt_ci++];
+      else { tv = bt_clk[bt_nclk - 1]; tv.tv_sec += 1000000; emit ("!clock"); }   /* script too short: let the wait give up */
+      ts->tv_sec = tv.tv_sec; ts->tv_nsec = tv.tv_usec * 1000L + 999;             /* any nanoseconds inside the microsecond */
+      return 0;
+    }
+  return (int) syscall (SYS_clock_gettime, id, ts);
+}
+
+/* regression guard: a blocking wait must not consult the wall clock (F17.4b).  If it does, flag it and serve the script
+   so that the run still terminates. */
 int gettimeofday (struct timeval *tv, void *tz)
 {
   if (bt_active && tv)
     {
+      emit ("!walltime");
       if (bt_ci < bt_nclk) *tv = bt_clk[bt_ci++];
-      else { *tv = bt_clk[bt_nclk - 1]; tv->tv_sec += 1000000; emit ("!clock"); }   /* script too short: let the wait give up */
+      else { *tv = bt_clk[bt_nclk - 1]; tv->tv_sec += 1000000; }
       return 0;
     }
   return (int) syscall (SYS_gettimeofday, tv, tz);
